@@ -103,17 +103,17 @@ def candidate (f : α → α) (cfg : NRConfig α) (n : Nat) (s : NRState α) : O
       | some u => some (s3, s3.it2 + u * cfg.underRelax)
 
 /-- the second half: clip, roll the iterates, test the step size -/
-def finishStep (cfg : NRConfig α) (s4 : NRState α) (x : α) : NRStep α :=
+def finishStep (cfg : NRConfig α) (n : Nat) (s4 : NRState α) (x : α) : NRStep α :=
   let x' := clip cfg s4 x
   let s5 : NRState α := { s4 with it0 := s4.it1, it1 := s4.it2, it2 := x' }
   let scale := maxv (absv s5.it1) cfg.atol
   let ad := absv (s5.it2 - s5.it1)
-  if ad < cfg.atol ∧ ad / scale < cfg.rtol then .converged s5.it2 else .continue s5
+  if (cfg.aitken && n % 3 == 0) = false ∧ ad < cfg.atol ∧ ad / scale < cfg.rtol then .converged s5.it2 else .continue s5
 
 theorem nrStep_eq' (f : α → α) (cfg : NRConfig α) (n : Nat) (s : NRState α) :
     nrStep f cfg n s = match candidate f cfg n s with
       | none => .raised
-      | some (s4, x) => finishStep cfg s4 x := rfl
+      | some (s4, x) => finishStep cfg n s4 x := rfl
 
 end generic
 
@@ -145,8 +145,8 @@ theorem candidate_spec (f : ℝ → ℝ) (cfg : NRConfig ℝ) (n : ℕ) (s s4 : 
         · intro hb; simpa using hb
         · intro _; exact ⟨by simpa [u6] using u4, by simpa [u6] using u5⟩
 
-theorem finishStep_continue (f : ℝ → ℝ) (cfg : NRConfig ℝ) (s4 s' : NRState ℝ) (x : ℝ) (h : Inv f s4)
-    (hs : finishStep cfg s4 x = .continue s') : Inv f s' := by
+theorem finishStep_continue (f : ℝ → ℝ) (cfg : NRConfig ℝ) (n : ℕ) (s4 s' : NRState ℝ) (x : ℝ) (h : Inv f s4)
+    (hs : finishStep cfg n s4 x = .continue s') : Inv f s' := by
   simp only [finishStep] at hs
   split at hs
   · exact absurd hs (by simp)
@@ -160,8 +160,8 @@ theorem finishStep_continue (f : ℝ → ℝ) (cfg : NRConfig ℝ) (s4 s' : NRSt
 /-- a value returned through the convergence test: it is the clipped proposal, closer than the
 tolerance to the previous iterate, and — when the root is bracketed — inside a bracket at whose
 ends the function has opposite signs -/
-theorem finishStep_converged (f : ℝ → ℝ) (cfg : NRConfig ℝ) (s4 : NRState ℝ) (x r : ℝ) (h : Inv f s4)
-    (hs : finishStep cfg s4 x = .converged r) :
+theorem finishStep_converged (f : ℝ → ℝ) (cfg : NRConfig ℝ) (n : ℕ) (s4 : NRState ℝ) (x r : ℝ) (h : Inv f s4)
+    (hs : finishStep cfg n s4 x = .converged r) :
     absv (r - s4.it2) < cfg.atol ∧ absv (r - s4.it2) / maxv (absv s4.it2) cfg.atol < cfg.rtol ∧
     (s4.bounded = true → f s4.lo * f s4.hi < 0 ∧ s4.lo ≤ r ∧ r ≤ s4.hi) := by
   simp only [finishStep] at hs
@@ -169,7 +169,7 @@ theorem finishStep_converged (f : ℝ → ℝ) (cfg : NRConfig ℝ) (s4 : NRStat
   · rename_i hc
     simp only [NRStep.converged.injEq] at hs
     subst hs
-    refine ⟨hc.1, hc.2, ?_⟩
+    refine ⟨hc.2.1, hc.2.2, ?_⟩
     intro hb
     have hin := h.inside hb
     have := h.sign hb
@@ -184,7 +184,7 @@ theorem nrStep_inv (f : ℝ → ℝ) (cfg : NRConfig ℝ) (n : ℕ) (s s' : NRSt
   split at hs
   · exact absurd hs (by simp)
   · rename_i s4 x hc
-    exact finishStep_continue f cfg s4 s' x (candidate_spec f cfg n s s4 x h hc).1 hs
+    exact finishStep_continue f cfg n s4 s' x (candidate_spec f cfg n s s4 x h hc).1 hs
 
 /-- certificate carried by every value the solver returns through its convergence test -/
 def Certified (f : ℝ → ℝ) (cfg : NRConfig ℝ) (r : ℝ) : Prop :=
@@ -208,7 +208,7 @@ theorem nrLoop_certified (f : ℝ → ℝ) (cfg : NRConfig ℝ) (hE : cfg.errorO
       · exact absurd hstep (by simp)
       · rename_i s4 y hc
         obtain ⟨h4, hit⟩ := candidate_spec f cfg n s s4 y h hc
-        obtain ⟨c1, c2, c3⟩ := finishStep_converged f cfg s4 y x h4 hstep
+        obtain ⟨c1, c2, c3⟩ := finishStep_converged f cfg n s4 y x h4 hstep
         refine ⟨s4.it2, s4.lo, s4.hi, s4.bounded, c1, c2, ?_⟩
         intro hb
         obtain ⟨d1, d2, d3⟩ := c3 hb
@@ -219,6 +219,97 @@ theorem nrLoop_certified (f : ℝ → ℝ) (cfg : NRConfig ℝ) (hE : cfg.errorO
 theorem newtonRaphson_certified (f : ℝ → ℝ) (cfg : NRConfig ℝ) (hE : cfg.errorOnMaxIter = true) (guess r : ℝ)
     (hr : newtonRaphson f cfg guess = some r) : Certified f cfg r :=
   nrLoop_certified f cfg hE _ _ _ (inv_init f guess) r hr
+
+/-! ### the value returned was reached by a regular step -/
+
+theorem updateBracket_keeps (s : NRState ℝ) (x fx : ℝ) :
+    (updateBracket s x fx).it2 = s.it2 ∧ (updateBracket s x fx).fe2 = s.fe2 := by
+  simp only [updateBracket]
+  split
+  · exact ⟨rfl, rfl⟩
+  · split
+    · exact ⟨rfl, rfl⟩
+    · split
+      · exact ⟨rfl, rfl⟩
+      · split <;> exact ⟨rfl, rfl⟩
+
+
+/-- a regular proposal: the current iterate plus the under-relaxed Newton/secant update
+`-f(x)/d` with a non-zero slope `d`, or half the bracket when the slope vanished -/
+def RegularProposal (f : ℝ → ℝ) (cfg : NRConfig ℝ) (s : NRState ℝ) (s4 : NRState ℝ) (x : ℝ) : Prop :=
+  ∃ u : ℝ, x = s.it2 + u * cfg.underRelax ∧
+    ((∃ d : ℝ, d ≠ 0 ∧ u = -f s.it2 / d) ∨ (s4.bounded = true ∧ u = (s4.hi - s4.lo) / two))
+
+theorem candidate_regular (f : ℝ → ℝ) (cfg : NRConfig ℝ) (n : ℕ) (s s4 : NRState ℝ) (x : ℝ)
+    (ha : (cfg.aitken && n % 3 == 0) = false) (hc : candidate f cfg n s = some (s4, x)) :
+    RegularProposal f cfg s s4 x := by
+  unfold candidate at hc
+  simp only [ha] at hc
+  simp only [Bool.false_eq_true, if_false] at hc
+  split at hc
+  · exact absurd hc (by simp)
+  · rename_i d hd
+    split at hc
+    · exact absurd hc (by simp)
+    · rename_i u hu
+      simp only [Option.some.injEq, Prod.mk.injEq] at hc
+      obtain ⟨rfl, rfl⟩ := hc
+      have hk := updateBracket_keeps { s with fe1 := s.fe2, fe2 := f s.it2 } s.it2 (f s.it2)
+      refine ⟨u, ?_, ?_⟩
+      · simp only [hk.1]
+      · simp only [hk.2] at hu
+        split at hu
+        · rename_i hd0
+          split at hu
+          · rename_i hb
+            simp only [Option.some.injEq] at hu
+            right; exact ⟨hb, hu.symm⟩
+          · exact absurd hu (by simp)
+        · rename_i hd0
+          simp only [Option.some.injEq] at hu
+          left
+          refine ⟨d, by simpa using hd0, ?_⟩
+          rw [← hu]
+
+theorem finishStep_converged_regular (cfg : NRConfig ℝ) (n : ℕ) (s4 : NRState ℝ) (x r : ℝ)
+    (hs : finishStep cfg n s4 x = .converged r) : (cfg.aitken && n % 3 == 0) = false ∧ r = clip cfg s4 x := by
+  simp only [finishStep] at hs
+  split at hs
+  · rename_i hc
+    simp only [NRStep.converged.injEq] at hs
+    exact ⟨hc.1, hs.symm⟩
+  · exact absurd hs (by simp)
+
+/-- **every value the solver returns through its step test was reached by a regular step**, never
+by an Aitken extrapolation: it is the (clipped) under-relaxed Newton/secant update from the
+previous iterate, or a bisection step -/
+def ReachedRegularly (f : ℝ → ℝ) (cfg : NRConfig ℝ) (r : ℝ) : Prop :=
+  ∃ (n : ℕ) (s s4 : NRState ℝ) (x : ℝ), (cfg.aitken && n % 3 == 0) = false ∧
+    RegularProposal f cfg s s4 x ∧ r = clip cfg s4 x
+
+theorem nrLoop_regular (f : ℝ → ℝ) (cfg : NRConfig ℝ) (hE : cfg.errorOnMaxIter = true) (fuel n : ℕ) (s : NRState ℝ)
+    (r : ℝ) (hr : nrLoop f cfg fuel n s = some r) : ReachedRegularly f cfg r := by
+  induction fuel generalizing n s with
+  | zero => simp [nrLoop, hE] at hr
+  | succ k ih =>
+    simp only [nrLoop] at hr
+    split at hr
+    · exact absurd hr (by simp)
+    · rename_i x hstep
+      simp only [Option.some.injEq] at hr
+      subst hr
+      rw [nrStep_eq'] at hstep
+      split at hstep
+      · exact absurd hstep (by simp)
+      · rename_i s4 y hc
+        obtain ⟨ha, hx⟩ := finishStep_converged_regular cfg n s4 y x hstep
+        exact ⟨n, s, s4, y, ha, candidate_regular f cfg n s s4 y ha hc, hx⟩
+    · rename_i s' hstep
+      exact ih (n + 1) s' hr
+
+theorem newtonRaphson_regular (f : ℝ → ℝ) (cfg : NRConfig ℝ) (hE : cfg.errorOnMaxIter = true) (guess r : ℝ)
+    (hr : newtonRaphson f cfg guess = some r) : ReachedRegularly f cfg r :=
+  nrLoop_regular f cfg hE _ _ _ r hr
 
 /-- opposite signs at the ends of an interval on which `f` is continuous: a root inside -/
 theorem root_of_sign_change (f : ℝ → ℝ) (lo hi : ℝ) (hle : lo ≤ hi) (hc : ContinuousOn f (Set.Icc lo hi))
